@@ -76,7 +76,7 @@ TDeal ==
              /\ resp' = [resp EXCEPT ![Me] = IF ret = "approve" THEN "app" ELSE "comp"]
              /\ truth' = [truth EXCEPT ![Me] = IF ret = "approve" THEN "app" ELSE "comp"]
              /\ thr' = S.thr
-             /\ cmtOK' = (k \notin {"badcommit", "nocommits"})
+             /\ cmtOK' = (k \notin {"badcommit", "nocommits", "otherpoly"})
         ELSE /\ ret = "error"             \* a second deal answered otherwise is not followed (see notes)
              /\ UNCHANGED <<hasDeal, own, thr, cmtOK, resp, truth>>
      /\ bad' = BadNext(S) /\ UNCHANGED <<badTruth, tmo>>
